@@ -253,6 +253,26 @@ func c14(r *ev.Run) {
 					run(l, "validate")
 				}
 			}
+			// the suite TEXT carries no admission rule: whatever it spells (an Snnn / Q / T token with other numbers, a
+			// registered name, nothing), the bounds are those of the configuration's fields
+			if f == 3 || f == 1 {
+				for _, text := range []string{"OCRA-1:HOTP-SHA1-6:QN08-S064", "OCRA-1:HOTP-SHA512-8:C-QH10-PSHA1-S512-T1M", "S256", "x-S000-y", "OCRA-1:HOTP-SHA1-6:QA10", "OCRA-1:HOTP-SHA1-6:QN08", ""} {
+					x := sh
+					x.Text = text
+					for _, n := range boundaryLens {
+						l := base
+						l[f] = n
+						for _, e := range []string{"input.Validate", "generate"} {
+							c := c14Case{Shape: x, Lens: l, Entry: e}
+							obs, bad := admit(c)
+							local++
+							if bad != "" {
+								r.Fail("admission", fmt.Sprintf("input-clause %s %s lens=%v suite text %q", e, x.sig(), l, text), c, bad, obs)
+							}
+						}
+					}
+				}
+			}
 			// every content class at the boundary lengths: admission must not depend on what the bytes are
 			for ct := 1; ct < len(c14Contents); ct++ {
 				for _, n := range boundaryLens {
